@@ -84,7 +84,13 @@ int xcm_dns_query_result(struct xcm_dns_query *q, struct xcm_addr_ip *ips, int c
 bool xcm_dns_supports_timeout_param(void) { return true; }
 static int g_sync_name_waits;
 int xcm_dns_resolve_sync(struct xcm_addr_host *h, void *l) { (void)l; if (h->type == xcm_addr_type_ip) return 0; g_sync_name_waits++; if (nd_bool()) { errno = ENOENT; return -1; } h->type = xcm_addr_type_ip; h->ip.family = AF_INET; return 0; }
-void tp_ip_to_sockaddr(const struct xcm_addr_ip *ip, uint16_t port, int64_t scope, struct sockaddr *sa) { (void)ip; (void)port; (void)scope; (void)sa; }
+static int64_t g_conf_scope = -1; static int g_bind_family, g_sockaddr_calls; static int64_t g_bind_scope;
+void tp_ip_to_sockaddr(const struct xcm_addr_ip *ip, uint16_t port, int64_t scope, struct sockaddr *sa)
+{
+    (void)port; (void)sa; g_sockaddr_calls++; g_bind_family = ip->family; g_bind_scope = scope;
+    if (ip->family == AF_INET6) CHECK(scope == (g_conf_scope >= 0 ? g_conf_scope : 0), "C11: an IPv6 server binds with the configured ipv6.scope (0 when none was given)");
+    else CHECK(g_conf_scope < 0, "C11: ipv6.scope on an IPv4 address is refused, not ignored");
+}
 void tp_sockaddr_to_btcp_addr(struct sockaddr_storage *sa, char *a, size_t cap) { (void)sa; if (cap > 2) { a[0] = 'b'; a[1] = 0; } }
 static bool g_remote_is_name;
 int xcm_addr_parse_btcp(const char *a, struct xcm_addr_host *h, uint16_t *p)
@@ -117,6 +123,7 @@ int main(void)
     S->type = xcm_socket_type_server;
     ASSUME(btcp_init(S, NULL) == 0);
     if (nd_bool()) B->scope = (int64_t)nd_range(0, 5);            /* ipv6.scope given at creation */
+    g_conf_scope = B->scope;
     g_remote_is_name = nd_bool();
     int rc = btcp_server(S, "btcp:x:1");
     if (rc < 0) { all_released(true); CHECK(errno != 0, "C08: failure is reported with a reason");
@@ -124,6 +131,10 @@ int main(void)
 	WITNESS(g_nfds == 0, "no descriptor could be created"); }
     else {
 	CHECK(g_nfds == 1 && F[0].open && F[0].listening && g_fd_regs == 1 && g_fd_reg_fd == FD0, "C08: a created server holds exactly one listening descriptor, registered once");
+	CHECK(g_sockaddr_calls == 1, "harness: one bind address");
+	if (g_bind_family == AF_INET6) CHECK(B->scope == (g_conf_scope >= 0 ? g_conf_scope : 0), "C11: ipv6.scope of an IPv6 server reports the scope in force (the configured one, else 0)");
+	else CHECK(B->scope == -1, "C11: an IPv4 server has no ipv6.scope");
+	WITNESS(g_bind_family == AF_INET6 && g_conf_scope > 0, "IPv6 server with a configured scope");
 	bool owner = nd_bool();
 	g_tc_owner_seen = g_q_owner_seen = false;            /* what was released as owner during establishment is not cleanup's business */
 	if (owner) btcp_close(S); else btcp_cleanup(S);
